@@ -57,6 +57,9 @@ func (o *Oracle) AddResponse(pub *keys.PublicKey, reqID uint64, txSig []byte) {
 	if ready {
 		ready = !incTx.isSent
 		incTx.isSent = true
+		if ready {
+			incTx.sentTx = readyTx
+		}
 	}
 	incTx.Unlock()
 
